@@ -34,4 +34,4 @@ def run(ctx):
     for i, s in enumerate(extra):
         s["judge"] = JUDGE
         s["name"] = "t%d" % i
-    C01.run_family(ctx, scens + extra, 150 if quick else 3000, "C02")
+    C01.run_family(ctx, scens + extra, 400 if quick else 15000, "C02")
